@@ -1288,6 +1288,23 @@ def _exclusions(conds, ovar):
     return ex, other
 
 
+def _registry_key_fields(repo):
+    """{(F, writer)}: fields <s>._dsl.<F> whose members are also written as keys of <s>._dsl.adjacency in one writer"""
+    prov = set()
+    for fm, fc, f in _level_functions(repo):
+        keys = set()
+        for n in ast.walk(f):
+            if isinstance(n, ast.Subscript) and _dsl_attr(n.value) and _dsl_attr(n.value)[1] == 'adjacency' \
+                    and isinstance(n.slice, ast.Name):
+                keys.add(n.slice.id)
+        for n in ast.walk(f):
+            if isinstance(n, ast.Call) and isinstance(n.func, ast.Attribute) and n.func.attr == 'add' and len(n.args) == 1 \
+                    and isinstance(n.args[0], ast.Name) and n.args[0].id in keys and _dsl_attr(n.func.value) \
+                    and _dsl_attr(n.func.value)[1] != 'adjacency':
+                prov.add((_dsl_attr(n.func.value)[1], f"{fc.name}.{f.name}"))
+    return prov
+
+
 def rule_keys(repo):
     r = RuleResult('R-C15-keys', "every key the additive half inserts into a keyed aggregate is deleted by the subtractive "
                    "half: graph nodes with their back edges, every set excluded from back-edge removal is itself deleted, "
@@ -1317,6 +1334,8 @@ def rule_keys(repo):
                         loops.append((g, a, a.target.id, dom.of(a.iter), st))
                     break
     graphs = sorted({g for g, *_ in loops if g.endswith('adjacency')})
+    foo = _params(fn)[1]
+    prov = _registry_key_fields(repo)
     decl = _declared(repo)
     want = [g for g in graphs]
     if not any(g.endswith('.all_adjacency') for g in graphs):
@@ -1419,6 +1438,25 @@ def rule_keys(repo):
                                   f"`{norm(rb)}` hands the neighbour to _add_component by value, so the re-add path creates a "
                                   f"new {what}; the old one keeps its (now empty) entry in {g} and in its owner's registry: "
                                   f"after replace_component the adjacency dict has one more {what} key than a fresh build", rb.lineno)
+                if g.endswith('.all_adjacency'):
+                    # every kind of object of the removed subtree that can be a neighbour must be excluded: they go away
+                    # with it and must neither be patched nor saved as an outside connection
+                    exu = frozenset()
+                    for S in ex:
+                        exu |= dom.of(S) or frozenset()
+                    need = [('coll', foo, 'Signal'), ('coll', foo, 'MethodPort')] + \
+                           [('fieldof', F, frozenset([('coll', foo, 'Component')])) for F in sorted({f for f, _ in prov})]
+                    for a in need:
+                        what = a[2] if a[0] == 'coll' else f"{a[1]} of the removed components"
+                        cons4 = f"all_adjacency: neighbours that are {what} are not treated as outside connections"
+                        if a in exu:
+                            r.ok(m, DEL_QUAL, cons4)
+                        else:
+                            r.bad(m, DEL_QUAL, f"all_adjacency: {what} not excluded by the outside-neighbour filter",
+                                  f"the filter before `{norm(st)}` excludes {_fmt_atoms(exu, False)} only: a neighbour that is one "
+                                  f"of the {what} (e.g. a constant tied inside the removed subtree) is saved as an outside "
+                                  f"connection and re-applied by the parent on the replacement (extra const net / "
+                                  f"MultiWriterError after replace_component)", st.lineno)
                 for S in ex:
                     sv = dom.of(S)
                     cons = f"{g.split('.')[-1]}: {_fmt_atoms(sv, False) if sv is not None else norm(S)} excluded from back-edge removal"
@@ -1460,6 +1498,13 @@ def rule_keys(repo):
                 uses.append(n)
             elif isinstance(n, (ast.For, ast.comprehension)) and isinstance(n.iter, ast.Name) and n.iter.id == S:
                 uses.append(n.iter)
+        filt_uses = [u for u in uses if isinstance(u, ast.Compare)]
+        if not filt_uses and any(_dsl_attr(f.value) for f in fills):
+            r.bad(m, DEL_QUAL, f"`{S}` collected but never used as a filter",
+                  f"`{S}` gathers `{norm(fills[0].value)}` of every removed component but no `in {S}` / `not in {S}` test reads it: "
+                  f"objects of that kind are handled like surviving neighbours (saved and re-connected by the parent)",
+                  fills[0].lineno)
+            continue
         last_fill = max(body_idx(f) for f in fills)
         early = [u for u in uses if body_idx(u) is not None and body_idx(u) <= last_fill]
         cons = f"`{S}` is complete before it is used ({len(uses)} uses)"
@@ -1472,19 +1517,6 @@ def rule_keys(repo):
                   f"saved, and re-connected by the parent", u.lineno)
         elif uses:
             r.ok(m, DEL_QUAL, cons)
-    # provenance of registry keys: <s>._dsl.<F>.add(K) and <s>._dsl.adjacency[K] in one writer
-    prov = set()
-    for fm, fc, f in _level_functions(repo):
-        keys = set()
-        for n in ast.walk(f):
-            if isinstance(n, ast.Subscript) and _dsl_attr(n.value) and _dsl_attr(n.value)[1] == 'adjacency' \
-                    and isinstance(n.slice, ast.Name):
-                keys.add(n.slice.id)
-        for n in ast.walk(f):
-            if isinstance(n, ast.Call) and isinstance(n.func, ast.Attribute) and n.func.attr == 'add' and len(n.args) == 1 \
-                    and isinstance(n.args[0], ast.Name) and n.args[0].id in keys and _dsl_attr(n.func.value) \
-                    and _dsl_attr(n.func.value)[1] != 'adjacency':
-                prov.add((_dsl_attr(n.func.value)[1], f"{fc.name}.{f.name}"))
     for F, w in sorted(prov):
         r.observations.append(f"members of <component>._dsl.{F} are adjacency keys (written in {w})")
     # residue of keyed `-=` on defaultdict aggregates
@@ -1732,8 +1764,17 @@ def rule_saved(repo):
     cfn = repo.lookup_method(cm, cc, '_construct')[2]
     hooked = [n for n in walk_no_nested(cfn) if isinstance(n, ast.Call) and isinstance(n.func, ast.Attribute)
               and n.func.attr == '_connect_signal_signal']
+    def resolved(e, at, depth=0):
+        """e with local aliases replaced by their reaching definitions (attribute chains and subscripts of them)"""
+        if isinstance(e, ast.Name) and depth < 4:
+            rv = reaching_value(e.id, at)
+            if rv is not None and isinstance(rv, (ast.Attribute, ast.Subscript, ast.Name)):
+                return resolved(rv, at, depth + 1)
+        if isinstance(e, ast.Subscript):
+            return ast.Subscript(value=resolved(e.value, at, depth), slice=resolved(e.slice, at, depth), ctx=ast.Load())
+        return _expand(e, at)
     apps = [n for n in walk_no_nested(kf) if isinstance(n, ast.Call) and isinstance(n.func, ast.Attribute) and n.func.attr == 'append'
-            and _dsl_attr(n.func.value) == (kme, 'connect_order')]
+            and _dsl_attr(resolved(n.func.value, stmt_of(n))) == (kme, 'connect_order')]
     if not apps:
         raise AnalysisError(f"{kc.name}._connect_signal_signal no longer records connect_order")
     for ap in apps:
@@ -1746,10 +1787,12 @@ def rule_saved(repo):
             if g.kind not in ('if', 'exit'):
                 continue
             for t, pol in _flatten_and(g.test, g.polarity):
-                if isinstance(t, ast.Compare) and len(t.ops) == 1 and isinstance(t.comparators[0], ast.Subscript) and \
-                        _dsl_attr(t.comparators[0].value) == (kme, 'adjacency'):
+                if not (isinstance(t, ast.Compare) and len(t.ops) == 1):
+                    continue
+                cmp = resolved(t.comparators[0], g.node)
+                if isinstance(cmp, ast.Subscript) and _dsl_attr(cmp.value) == (kme, 'adjacency'):
                     notin = (isinstance(t.ops[0], ast.NotIn) and pol) or (isinstance(t.ops[0], ast.In) and not pol)
-                    if notin and {norm(t.left), norm(t.comparators[0].slice)} == {a, b}:
+                    if notin and {norm(resolved(t.left, g.node)), norm(cmp.slice)} == {a, b}:
                         guarded = True
         cons = f"{kc.name}._connect_signal_signal: connect_order.append(({a}, {b})) only for a not yet adjacent pair"
         if guarded:
@@ -2617,6 +2660,8 @@ MUTANTS = [
         removed_consts |= x._dsl.consts
         del x._dsl.parent_obj
 """, count=1)]),
+    _m('seed-consts-not-excluded-from-outside-neighbours', COMP, "if other not in removed_connectables and other not in removed_consts:",
+       "if other not in removed_connectables:", 'R-C15-keys'),
     _m('removed-consts-never-filled', COMP, """        # remove consts
         removed_consts |= x._dsl.consts
 """, "", 'R-C15-keys'),
@@ -2887,6 +2932,25 @@ EQUIV = [
           more_args = s._dsl.param_tree.leaf[ "construct" ]
           kwargs.update( more_args )
         s._dsl.kwargs = kwargs
+"""),
+    _m('connect-adjacency-alias', L3, "    if o1 not in s._dsl.adjacency[o2]:\n      assert o2 not in s._dsl.adjacency[o1]\n      s._dsl.adjacency[o1].add( o2 )\n      s._dsl.adjacency[o2].add( o1 )",
+       "    adj = s._dsl.adjacency\n    if o1 not in adj[o2]:\n      assert o2 not in adj[o1]\n      adj[o1].add( o2 )\n      s._dsl.adjacency[o2].add( o1 )"),
+    _m('connect-neighbour-set-locals', L3, "      s._dsl.adjacency[o1].add( o2 )\n      s._dsl.adjacency[o2].add( o1 )\n\n      s._dsl.connect_order",
+       "      nb1 = s._dsl.adjacency[o1]\n      nb2 = s._dsl.adjacency[o2]\n      nb1.add( o2 )\n      nb2.add( o1 )\n\n      s._dsl.connect_order"),
+    _m('connect-guard-on-neighbour-set-local-and-order-alias', L3, """    if o1 not in s._dsl.adjacency[o2]:
+      assert o2 not in s._dsl.adjacency[o1]
+      s._dsl.adjacency[o1].add( o2 )
+      s._dsl.adjacency[o2].add( o1 )
+
+      s._dsl.connect_order.append( (o1, o2) )
+""", """    nb = s._dsl.adjacency[o2]
+    order = s._dsl.connect_order
+    if o1 not in nb:
+      assert o2 not in s._dsl.adjacency[o1]
+      s._dsl.adjacency[o1].add( o2 )
+      nb.add( o1 )
+
+      order.append( (o1, o2) )
 """),
     _m('connect-guard-as-early-return', L3, """    if o1 not in s._dsl.adjacency[o2]:
       assert o2 not in s._dsl.adjacency[o1]
